@@ -19,6 +19,7 @@ from sa.cfg import CFG
 from sa.core import AnalysisError, LiteralEvaluator, NotLiteral, enclosing, norm, parents, resolve_callee, src, walk_no_nested
 
 from . import c03, common
+from .common import block_always_raises
 
 
 def printed_tokens(node):
@@ -419,6 +420,18 @@ def r11(p, rep):
             a0 = c.args[0]
             origin = common.origin_params(f, a0)
             plain = isinstance(a0, ast.Name) and a0.id in (set(f.params) | {q for g in _enclosing11(f) for q in g.params})
+            # when einx appends notation of its own to the description, the caller's string must first be shown free of
+            # that notation (otherwise errors point at text einx added itself)
+            lits = [x.value for x in ast.walk(a0) if isinstance(x, ast.Constant) and isinstance(x.value, str) and x.value.strip()] if not plain else []
+            for lit in {l.strip() for l in lits}:
+                cfg11 = CFG(f.node)
+                guarded = False
+                for st in walk_no_nested(f.node):
+                    if isinstance(st, ast.If) and block_always_raises(st.body) and cfg11.node_for(st) is not None and cfg11.node_for(c) is not None and cfg11.dominates(cfg11.node_for(st), cfg11.node_for(c)):
+                        t = st.test
+                        if isinstance(t, ast.Compare) and len(t.ops) == 1 and isinstance(t.ops[0], ast.In) and isinstance(t.left, ast.Constant) and t.left.value == lit and isinstance(t.comparators[0], ast.Name) and t.comparators[0].id in ({x.id for x in ast.walk(a0) if isinstance(x, ast.Name)} & set(f.params)):
+                            guarded = True
+                rep.add("C12.R11", f"{f.qualname}:{r[1].name}:appended({lit}):guard", f"{f.module.rel}:{c.lineno}", guarded, f"a description that already contains {lit!r} is rejected (quoting the caller's string) before {lit!r} is appended" if guarded else f"einx appends {lit!r} to the description without first rejecting descriptions that contain {lit!r} themselves: the parser then complains about the {lit!r} einx added (marker under text the caller never wrote)")
             rep.add("C12.R11", f"{f.qualname}:{r[1].name}:description", f"{f.module.rel}:{c.lineno}", plain, f"`{norm(a0)}` is the caller's description, unchanged" if plain else f"`{norm(a0)[:50]}` is parsed in place of the caller's description: syntax errors quote text the caller never wrote (einx.solve_shapes('a (', x) reports the expression \"a ( ->\")")
     if n < 2:
         raise AnalysisError(f"unrecognised idiom: expected >= 2 call sites of _parse_op, found {n}")
